@@ -13,7 +13,7 @@ VERIF = os.path.dirname(os.path.dirname(os.path.abspath(__file__)))
 
 
 def sh(cmd, cwd=None, timeout=1800):
-    p = subprocess.run(cmd, shell=True, cwd=cwd, capture_output=True, text=True, timeout=timeout)
+    p = subprocess.run(cmd, shell=True, cwd=cwd, capture_output=True, text=True, errors='replace', timeout=timeout)
     return p.returncode, (p.stdout + p.stderr)
 
 
@@ -28,18 +28,21 @@ def main():
     # 1. confirm
     suite_ok = True; demo_changed = demo_orig = None
     if not a.recheck:
+        sh('git checkout -- . ; git apply SEED/patch.diff', cwd=wt)
         rc, out = sh(f'python3 {VERIF}/tools/baseline.py {wt}')
         log['suite_with_change'] = out.strip().splitlines()[0] if out.strip() else ''
         suite_ok = rc == 0
     if not a.skip_demo and not a.recheck:
+        # switch trees with the patch itself (git stash is shared between worktrees of one repository)
+        sh('git checkout -- . ; git apply SEED/patch.diff', cwd=wt)
         sh('make clean >/dev/null 2>&1; make >/dev/null 2>&1', cwd=wt)
-        rc1, o1 = sh('bash SEED/run.sh', cwd=wt, timeout=600)
+        rc1, o1 = sh('bash SEED/run.sh', cwd=wt, timeout=900)
         demo_changed = rc1; log['demo_changed_tail'] = o1[-600:]
-        sh('git stash -q', cwd=wt)
+        sh('git apply -R SEED/patch.diff', cwd=wt)
         sh('make clean >/dev/null 2>&1; make >/dev/null 2>&1', cwd=wt)
-        rc0, o0 = sh('bash SEED/run.sh', cwd=wt, timeout=600)
+        rc0, o0 = sh('bash SEED/run.sh', cwd=wt, timeout=900)
         demo_orig = rc0; log['demo_original_tail'] = o0[-400:]
-        sh('git stash pop -q', cwd=wt)
+        sh('git apply SEED/patch.diff', cwd=wt)
         sh('make clean >/dev/null 2>&1; make >/dev/null 2>&1', cwd=wt)
     confirmed = suite_ok and (a.skip_demo or (demo_changed != 0 and demo_orig == 0))
     print(f'suite_ok={suite_ok} demo_changed_rc={demo_changed} demo_original_rc={demo_orig} confirmed={confirmed}')
